@@ -425,6 +425,71 @@ def categories_registered_later(ctx, spell, shard, nshards):
                         ctx.count("pairs agreeing on a value after their category was registered later")
 
 
+def spellings_registered_as_units(ctx, spell, shard, nshards):
+    """A legacy spelling is *used* (so whatever the library remembers about it is remembered), then registered as a unit of
+    its own - in the quantity type of its old reading, or in a quantity type of the application - and is from then on a
+    current symbol of the table: it means the registered unit, exactly as on a database where it was registered before
+    anyone used it ("no current unit symbol of the table is ever rewritten into something else")."""
+    import numpy as np
+    from barril.units import Array, FractionScalar, ObtainQuantity, Scalar, UnitDatabase
+
+    warm, fresh = table.build("posc"), table.build("posc")
+    todo = [(leg, cur) for i, (leg, cur) in enumerate(sorted(spell.items())) if i % nshards == shard][:: 1 if ctx.tier != "quick" else 3]
+
+    def register(db, k, leg, cur):
+        if k % 2 == 0:
+            db.AddUnit("c16 own units", "a unit of the application", leg, "%f*7.0", "%f/7.0")
+        else:
+            db.AddUnit(db.GetQuantityType(cur), "an old symbol with a meaning of its own", leg, "%f*7.0", "%f/7.0")
+
+    def forms(db, k, leg, cur):
+        qt = "c16 own units" if k % 2 == 0 else db.GetQuantityType(cur)
+        base = db.GetBaseUnit(qt)
+        return (
+            ("Scalar(x,u)", lambda: Scalar(2.0, leg)), ("ObtainQuantity(u)", lambda: ObtainQuantity(leg)), ("ObtainQuantity(u,None,caption)", lambda: ObtainQuantity(leg, None, "a caption")), ("Scalar(x,u).GetValue(base)", lambda: Scalar(2.0, leg).GetValue(base)),
+            ("Array(ndarray,u)", lambda: Array(np.array([1.0, 2.0]), leg)), ("FractionScalar(x,u)", lambda: FractionScalar(1.5, leg)), ("GetDefaultCategory(u)", lambda: db.GetDefaultCategory(leg)), ("GetQuantityType(u)", lambda: db.GetQuantityType(leg)),
+            ("Convert(qt,u,base,x)", lambda: db.Convert(qt, leg, base, 2.0)), ("empty Scalar.CreateCopy(unit=u)", lambda: Scalar.CreateEmptyScalar(2.0).CreateCopy(unit=leg)), ("Scalar(x,u,old default category)", lambda: Scalar(2.0, leg, db.GetDefaultCategory(cur))),
+            ("ObtainQuantity(u, old default category)", lambda: ObtainQuantity(leg, db.GetDefaultCategory(cur))), ("Scalar(x, current spelling)", lambda: Scalar(2.0, cur)), ("Scalar(own category, x, u)", lambda: Scalar("c16 own units", 2.0, leg)),
+        )  # fmt: skip
+
+    for db in (warm, fresh):
+        db.AddUnitBase("c16 own units", "base of the application's units", "c16 base")
+        db.AddCategory("c16 own units", "c16 own units")
+    now = {}
+    with table.pushed(warm):
+        for k, (leg, cur) in enumerate(todo):
+            dc = warm.GetDefaultCategory(cur)
+            for use in (lambda: Scalar(1.0, leg), lambda: ObtainQuantity(leg), lambda: ObtainQuantity(leg, dc), lambda: ObtainQuantity(leg, None, "a caption"), lambda: Array(dc, [1.0], leg), lambda: FractionScalar(1.5, leg),
+                        lambda: Scalar.CreateEmptyScalar(2.0).CreateCopy(unit=leg), lambda: ObtainQuantity(leg, dc, "a caption")):  # fmt: skip
+                outcome(use)
+            try:
+                register(warm, k, leg, cur)
+            except Exception as e:
+                ctx.count("spellings that could not be registered as units (%s)" % type(e).__name__)
+                continue
+            now[leg] = {name: outcome(fn) for name, fn in forms(warm, k, leg, cur)}
+        end = {leg: {name: outcome(fn) for name, fn in forms(warm, k, leg, cur)} for k, (leg, cur) in enumerate(todo) if leg in now}
+    with table.pushed(fresh):
+        for k, (leg, cur) in enumerate(todo):
+            if leg in now:
+                register(fresh, k, leg, cur)
+        for k, (leg, cur) in enumerate(todo):
+            if leg not in now:
+                continue
+            for name, fn in forms(fresh, k, leg, cur):
+                ctx.ev()
+                ctx.nt(("registered as a unit", leg, name))
+                of = outcome(fn)
+                for when, ow in (("right after the registration", now[leg][name]), ("after all registrations", end[leg][name])):
+                    if ow != of:
+                        ctx.violation("registered-spelling:used-before-differs-from-never-used:%s" % name, {"symbol": leg, "old_reading": cur, "registered_in": "a type of the application" if k % 2 == 0 else "the type of its old reading", "asked": when,
+                                                                                                          "used_before_the_registration": ow, "never_used_before": of}, replay={"legacy": leg, "current": cur})  # fmt: skip
+                        break
+                else:
+                    if of[0] == "ok":
+                        ctx.count("registered spellings: pairs agreeing on a value")
+
+
 def run(ctx):
     from barril.units import ObtainQuantity, Quantity, UnitDatabase
     from barril.units import unit_database as ud
@@ -551,6 +616,23 @@ def run(ctx):
                         ctx.count("entry pairs agreeing on an exception")
                         per_entry.setdefault(name, 0)
                         per_entry_exc[name] = oc[1]
+            # the caller's warning filter set to "error" (a test run with -W error, a service that treats warnings as faults): whatever
+            # the library may have to say about an old spelling, the spelling still means the unit
+            if cat_list:
+                import warnings as _w
+
+                for k_, (name, fn) in enumerate(entries(db, qt, cat_list[0], base if base != cur else other, other, cur)):
+                    if k_ % 5 != idx % 5:
+                        continue
+                    ctx.ev()
+                    ctx.nt((leg, name, "warnings as errors"))
+                    with _w.catch_warnings():
+                        _w.simplefilter("error")
+                        ol, oc = outcome(lambda: fn(leg)), outcome(lambda: fn(cur))
+                    if ol != oc:
+                        ctx.violation("legacy-differs-from-current:under-an-error-warning-filter:%s" % name, {"legacy": leg, "current": cur, "category": cat_list[0], "entry": name, "with_legacy": ol, "with_current": oc}, replay={"legacy": leg, "current": cur})
+                    elif oc[0] == "ok":
+                        ctx.count("entry pairs agreeing on a value with warnings turned into errors")
             for name, ol, oc in registration(ctx, qt, leg, cur, us):
                 ctx.ev()
                 ctx.nt((leg, name))
@@ -568,6 +650,7 @@ def run(ctx):
         first_use_orders(ctx, spell, ctx.shard, ctx.nshards)
         categories_registered_later(ctx, spell, ctx.shard, ctx.nshards)
         database_that_is_not_the_singleton(ctx, spell, ctx.shard, ctx.nshards)
+        spellings_registered_as_units(ctx, spell, ctx.shard, ctx.nshards)
         if ctx.shard == 0:
             second_database(ctx, subs)
             ctx.sample({"spellings": sorted(spell.items())[:12]})
